@@ -68,6 +68,8 @@ class AMachine(Machine):
             feat -= {"rep", "indirect", "smc"}
         if arch == "mips32l":
             feat -= {"multi"}
+            if self.pid == "C21" and "mem" in feat:
+                feat.add("slotmem")       # loads/stores in branch delay slots (no faults are injected in C21)
         return a_sim.gen_program(arch, rng, feat), sorted(feat)
 
     must_features = []
@@ -357,6 +359,7 @@ class C23(AMachine):
             "start of the program (block starts, mid-block, loop bodies, never reached), callbacks that stop the run; expected "
             "invocations are computed from the reference pc sequence, not from miasm's breakpoint code")
     actors = ["debugger", "tuner"]
+    mips_guest_share = 0.08
     must_features = ["loop"]     # loop heads: addresses that start one block and lie inside another
     expected_probes = ["debugger_bp_add", "debugger_bp_set", "debugger_remove_by_address", "debugger_remove_by_callback",
                        "bp_hit", "bp_callback_stops_run", "bp_removed_from_inside_callback", "hits_judged", "runs_completed",
@@ -461,6 +464,7 @@ class C49(AMachine):
             "page is unmapped or loses R or W (incl. the second page of a straddling access); at the fault stop pc, flags and the "
             "whole state are compared with the reference state before that instruction, the fault is healed and the run must "
             "complete on the reference path; both backends")
+    mips_guest_share = 0.08
     must_features = ["mem", "straddle"]
     # no REP: miasm runs all iterations of a REP instruction inside one IR loop, so the reference has
     # no per-iteration states to compare a mid-REP fault stop with (stated limit, see DESIGN)
